@@ -10,6 +10,8 @@ HERE = os.path.dirname(os.path.dirname(os.path.abspath(__file__)))
 BEGIN, END = '<!-- SEEDED-BEGIN -->', '<!-- SEEDED-END -->'
 
 OUT_OF_SCOPE = {
+    'G01-1': 'not a violation of the statement (as C10-1, C19-8, F05-1): for a range whose corners share a row or a column the end '
+             'cell inherits the $ marker of the start corner on the shared part; coordinates and labels of both cells stay right',
     'F05-1': 'not a violation of the statement (same situation as C10-1 and C19-8): for a range whose corners share a row or a '
              'column it moves the $ marker from one corner to the other; coordinates and labels of both reported cells stay '
              'right, and no statement fixes marker attribution between range corners on ties',
